@@ -396,3 +396,32 @@ def _yield_rule(rep, rule, body, prov, name):
             rep.check(rule, name + "|yielded-value-same-varbind", acc is not None and t[0] == "f" and t[2] == "value" and acc[0] == "f" and t[1] == acc[1],
                       "value of the same varbind", "value %s comes from another varbind than %s" % (flow.fmt(t), flow.fmt(acc) if acc else None),
                       body.loc(b.term["line"]), obligation=True)
+
+
+def next_oid_rejections(ctx, rep, rule):
+    """GetIter::set_next_oid turns an OID down only because it lies outside the subtree or is not after the previous one:
+    any other condition leading straight to `false` (a length or arc-count limit ...) ends a walk early on a legal OID."""
+    facts = ctx.facts
+    body = facts.body("snmp::op::getiter::GetIter::set_next_oid")
+    if body is None:
+        rep.missing(rule, "GetIter::set_next_oid")
+        return
+    prov = flow.Prov(body)
+    falses = []
+    rl = flow.return_locals(body)
+    for b in body.live_blocks():
+        for st in b.stmts:
+            if st["k"] == "assign" and st["place"]["l"] in rl and not st["place"]["p"] and st["rv"]["k"] == "use" and \
+                    (st["rv"]["op"].get("const") or {}).get("v", {}).get("bool") is False:
+                falses.append(b.idx)
+    n = 0
+    for g, pol, tgt in flow.deciding_guards(body, prov, falses):
+        n += 1
+        t = g.term
+        ok = flow.mentions(t, lambda s_: s_[0] == "call" and (s_[1] or "").split("::")[-1] in ("starts_with", "cmp_arcs", "cmp", "partial_cmp", "is_gt", "is_lt", "is_le", "is_ge"))
+        rep.check(rule, "GetIter::set_next_oid|rejection on %s" % flow.fmt(t)[:70], ok, "subtree or order test",
+                  "an OID is turned down on a condition that is neither the subtree test nor the order test (%s): the walk ends early on a legal entry" % flow.fmt(t)[:100],
+                  body.loc(g.line), obligation=True)
+    if n == 0:
+        rep.inconclusive(rule, "GetIter::set_next_oid|rejections", "no guarded `false` exit recognised", body.loc())
+
